@@ -36,7 +36,8 @@ IntactWrite(SC, m) == /\ cur # 0 /\ ~IsGood(Gram(SC, cur)) /\ Gram(SC, cur).inta
 SameShape(a, b) == Len(a) = Len(b) /\ \A i \in 1 .. Len(a) : Len(a[i]) = Len(b[i]) /\ \A k \in 1 .. Len(a[i]) : Len(a[i][k]) = Len(b[i][k])
 Settled(SC, m) == /\ (open => Droppable(Gram(SC, cur)))
                   /\ SameShape(m, SC.mem0)
-                  /\ (m = umem \/ ack \/ IntactWrite(SC, m))
+                  /\ (m = umem \/ ack \/ IntactWrite(SC, m)
+                      \/ (IF cur # 0 /\ m # umem THEN ~IsGood(Gram(SC, cur)) /\ WrittenFromInput(umem, m, Gram(SC, cur).b) ELSE FALSE))      \* PERMISSIVE(C08), as HostileTrace
 
 Arrive(SC, m) == /\ nextg <= Len(SC.grams) /\ Settled(SC, m)
                  /\ umem' = m /\ cur' = nextg /\ open' = TRUE /\ nextg' = nextg + 1 /\ ack' = FALSE /\ UNCHANGED replies
